@@ -38,6 +38,7 @@ type Config struct {
 	Dir     string
 	Tags    string
 	GOARCH  string
+	GOOS    string
 	Tests   bool
 	Overlay map[string][]byte
 }
@@ -81,6 +82,9 @@ func Load(cfg Config) (*Program, error) {
 	env = append(env, "GOFLAGS=-mod=mod", "GOPROXY=off", "GOSUMDB=off", "GOTOOLCHAIN=local", "GOWORK=off")
 	if cfg.GOARCH != "" {
 		env = append(env, "GOARCH="+cfg.GOARCH)
+	}
+	if cfg.GOOS != "" {
+		env = append(env, "GOOS="+cfg.GOOS, "CGO_ENABLED=0")
 	}
 	pc := &packages.Config{
 		Mode:    packages.LoadAllSyntax,
